@@ -12,6 +12,7 @@ import (
 	"sort"
 	"strings"
 	"sync"
+	"sync/atomic"
 	"time"
 
 	proto "github.com/kubewharf/kubebrain-client/api/v2rpc"
@@ -22,6 +23,8 @@ import (
 	"kbverif/gate"
 	"kbverif/kb"
 )
+
+var regionSeq int64
 
 // ---- behaviours of spec/KBSeq.tla ----
 
@@ -321,6 +324,24 @@ func (r *reader) faultSweep(rnd *rand.Rand, nkeys int, base, cur uint64) int {
 			n++
 		}
 	}
+	env.Store.IterFault = nil
+	// the compaction record cannot be looked up (every point lookup of the engine fails for a while): a range read below the
+	// floor is still not answered with data, and a compaction request naming an older revision does not lower the floor
+	if fl := env.CompactRecord(); fl > base+1 {
+		env.Store.GetFault = func(proc string) error { return errors.New("injected transient lookup error") }
+		r.list(bs[0], bs[len(bs)-1], fl-1, 0, -1)
+		r.list(bs[0], bs[len(bs)-1], fl-1, 1, -1)
+		r.stream(bs[0], bs[len(bs)-1], fl-1)
+		env.Rec.Log(gate.Event{"e": "CInvoke", "p": "c1", "rev": gate.Clip(fl - 1)})
+		resp, err := env.B.Compact(context.Background(), fl-1)
+		ev := gate.Event{"e": "CReturn", "p": "c1", "err": errStr(err), "hdr": 0, "minunc": 0}
+		if err == nil && resp != nil && resp.Header != nil {
+			ev["hdr"] = gate.Clip(resp.Header.Revision)
+		}
+		env.Rec.Log(ev)
+		env.Store.GetFault = nil
+		n += 4
+	}
 	return n
 }
 
@@ -347,7 +368,17 @@ func runSeqHistory(eng *kb.Engine, engName string, b *seqBehaviour, rnd *rand.Ra
 	if opt.keyNames != nil {
 		keyNames = opt.keyNames[:b.NKeys]
 	}
-	env := kb.NewEnv(kb.Options{Engine: eng, KeyNames: keyNames, Gated: false, Base: b.Base, Record: true, Etcd: true, NoTTL: opt.noTTL, Partitions: opt.partitions})
+	fixedPrefix := ""
+	beyond := true
+	if engName == "tikv-regions" {
+		// prefixes in increasing order: every history lies beyond all region borders made so far, so that -- in every second
+		// history, which gets no border beyond its prefix -- a scan of the prefix reaches the last region of the cluster, the
+		// one whose end is unbounded
+		n := atomic.AddInt64(&regionSeq, 1)
+		fixedPrefix = fmt.Sprintf("/z%06d", n)
+		beyond = n%2 == 0
+	}
+	env := kb.NewEnv(kb.Options{Engine: eng, KeyNames: keyNames, Gated: false, Base: b.Base, Record: true, Etcd: true, NoTTL: opt.noTTL, Partitions: opt.partitions, Prefix: fixedPrefix})
 	defer env.Retire()
 	env.Sched.Register("c1")
 	store0, _ := env.Dump()
@@ -485,10 +516,12 @@ func runSeqHistory(eng *kb.Engine, engName string, b *seqBehaviour, rnd *rand.Ra
 			}
 			// ... and a region border BEYOND the end of the prefix, with a foreign record between the two: the last
 			// region that overlaps a scan of the prefix then ends after the scan does
-			eng.SplitAt(kb.Coder.EncodeObjectKey([]byte(env.Prefix+"1/zz"), 0))
-			fb := eng.KV.BeginBatchWrite()
-			fb.Put(kb.Coder.EncodeObjectKey([]byte(env.Prefix+"1/a"), 1), []byte("foreign"), 0)
-			fb.Commit(context.Background())
+			if beyond {
+				eng.SplitAt(kb.Coder.EncodeObjectKey([]byte(env.Prefix+"1/zz"), 0))
+				fb := eng.KV.BeginBatchWrite()
+				fb.Put(kb.Coder.EncodeObjectKey([]byte(env.Prefix+"1/a"), 1), []byte("foreign"), 0)
+				fb.Commit(context.Background())
+			}
 		}
 		if last {
 			rd.sweep(rnd, b.NKeys, b.Base, cur, opt.finalFrac, opt.streams)
